@@ -885,8 +885,13 @@ func (w *Writer) appendTar(r io.Reader, lossless bool) error {
 	if lossless {
 		tr.RawAccounting = true
 	}
+	// A stream left open by a previous AppendTar call must not be shared: the
+	// offsets recorded below are relative to the start of a compressed stream.
+	if err := w.closeGz(); err != nil {
+		return err
+	}
 	prevOffset := w.cw.n
-	var prevOffsetUncompressed int64
+	prevOffsetUncompressed := w.uncompressedCounter.n
 	for {
 		h, err := tr.Next()
 		if err == io.EOF {
